@@ -1,7 +1,477 @@
-//! C18 — not implemented yet (stub).
-use crate::engine::Args;
+//! C18 — TCP relays are byte-exact and PROXY protocol headers are exact and unique (DESIGN §4 C18).
+//!
+//! In-process tiers: (a) the PROXY-v2 codec round trip and the parser on arbitrary bytes;
+//! (b) `ExpectProxyProtocol<FakeSocket>` fed a generated header (+ TLV tail, + payload) split at
+//! generated positions with would-blocks in between. The relay itself (tier c) is a wire-lab check.
 
-pub fn run(_args: &Args) -> i32 {
-    println!("INCONCLUSIVE: C18 has no check yet");
-    2
+use std::{
+    collections::VecDeque,
+    net::{SocketAddr, TcpListener as StdListener, TcpStream as StdStream},
+    time::Duration,
+};
+
+use mio::{Token, net::TcpStream};
+use proptest::prelude::*;
+use rusty_ulid::Ulid;
+use serde::{Deserialize, Serialize};
+use sozu_lib::{
+    SessionMetrics, SessionResult,
+    protocol::proxy_protocol::{
+        expect::ExpectProxyProtocol,
+        header::{Command, HeaderV2, ProxyAddr},
+        parser::parse_v2_header,
+    },
+    socket::{SocketHandler, SocketResult, TransportProtocol},
+    timer::TimeoutContainer,
+};
+
+use crate::engine::{self, Args, CaseReport, CheckResult, Evidence};
+
+const SIG: [u8; 12] = [0x0D, 0x0A, 0x0D, 0x0A, 0x00, 0x0D, 0x0A, 0x51, 0x55, 0x49, 0x54, 0x0A];
+
+// ------------------------------------------------------------------ (a) codec
+
+#[derive(Clone, Debug, Serialize, Deserialize)]
+pub enum CodecCase {
+    RoundTrip { local: bool, src: String, dst: String },
+    Bytes(Vec<u8>),
+}
+
+fn sockaddr() -> impl Strategy<Value = String> {
+    prop_oneof![
+        (any::<[u8; 4]>(), any::<u16>()).prop_map(|(ip, p)| SocketAddr::from((ip, p)).to_string()),
+        (any::<[u16; 8]>(), any::<u16>()).prop_map(|(ip, p)| SocketAddr::from((ip, p)).to_string()),
+        Just("127.0.0.1:80".to_string()),
+        Just("[::1]:65535".to_string()),
+    ]
+}
+
+/// a v2 header built by hand from the specification (independent of sozu's encoder)
+fn raw_header(cmd: u8, fam: u8, block: &[u8]) -> Vec<u8> {
+    let mut v = SIG.to_vec();
+    v.push(cmd);
+    v.push(fam);
+    v.extend_from_slice(&(block.len() as u16).to_be_bytes());
+    v.extend_from_slice(block);
+    v
+}
+
+fn codec_strategy() -> impl Strategy<Value = CodecCase> {
+    prop_oneof![
+        3 => (any::<bool>(), sockaddr(), sockaddr()).prop_map(|(local, src, dst)| CodecCase::RoundTrip { local, src, dst }),
+        2 => prop::collection::vec(any::<u8>(), 0..300).prop_map(CodecCase::Bytes),
+        // structured near-misses: valid signature, arbitrary fixed fields and length
+        3 => (any::<u8>(), any::<u8>(), prop::collection::vec(any::<u8>(), 0..260), any::<bool>(), prop::collection::vec(any::<u8>(), 0..40))
+            .prop_map(|(cmd, fam, block, fix, tail)| {
+                let cmd = if fix { 0x20 | (cmd & 1) } else { cmd };
+                let fam = if fix { [0x00u8, 0x11, 0x12, 0x21, 0x22, 0x31][(fam % 6) as usize] } else { fam };
+                let mut v = raw_header(cmd, fam, &block);
+                v.extend_from_slice(&tail);
+                CodecCase::Bytes(v)
+            }),
+    ]
+}
+
+/// what the specification says about a byte string that starts with a complete v2 header
+struct SpecHeader {
+    total: usize,
+    cmd: u8,
+    fam: u8,
+    block: Vec<u8>,
+}
+
+fn spec_parse(b: &[u8]) -> Option<SpecHeader> {
+    if b.len() < 16 || b[..12] != SIG {
+        return None;
+    }
+    let len = u16::from_be_bytes([b[14], b[15]]) as usize;
+    if b.len() < 16 + len {
+        return None;
+    }
+    Some(SpecHeader { total: 16 + len, cmd: b[12], fam: b[13], block: b[16..16 + len].to_vec() })
+}
+
+fn check_codec(case: &CodecCase) -> CheckResult {
+    let mut rep = CaseReport::default();
+    match case {
+        CodecCase::RoundTrip { local, src, dst } => {
+            let (s, d): (SocketAddr, SocketAddr) = (src.parse().unwrap(), dst.parse().unwrap());
+            let cmd = if *local { Command::Local } else { Command::Proxy };
+            let h = HeaderV2::new(cmd, s, d);
+            let bytes = h.into_bytes();
+            let mixed = s.is_ipv4() != d.is_ipv4();
+            // independent reading of the encoder's output
+            let Some(spec) = spec_parse(&bytes) else {
+                fail!("C18/encoder-output-not-a-v2-header", "HeaderV2::into_bytes produced {} bytes that are not a complete v2 header: {:02x?}", bytes.len(), bytes);
+            };
+            if spec.total != bytes.len() {
+                fail!("C18/encoder-length", "encoded header has {} bytes but declares {}", bytes.len(), spec.total);
+            }
+            if spec.cmd != if *local { 0x20 } else { 0x21 } {
+                fail!("C18/encoder-command", "version/command byte {:#x}", spec.cmd);
+            }
+            if !mixed {
+                let want_block: Vec<u8> = match (s, d) {
+                    (SocketAddr::V4(a), SocketAddr::V4(b)) => [a.ip().octets().to_vec(), b.ip().octets().to_vec(), a.port().to_be_bytes().to_vec(), b.port().to_be_bytes().to_vec()].concat(),
+                    (SocketAddr::V6(a), SocketAddr::V6(b)) => [a.ip().octets().to_vec(), b.ip().octets().to_vec(), a.port().to_be_bytes().to_vec(), b.port().to_be_bytes().to_vec()].concat(),
+                    _ => unreachable!(),
+                };
+                let want_fam = if s.is_ipv4() { 0x11 } else { 0x21 };
+                if spec.fam != want_fam || spec.block != want_block {
+                    fail!("C18/encoder-addresses", "header for {s} -> {d}: family {:#x} block {:02x?}, specification says family {:#x} block {:02x?}", spec.fam, spec.block, want_fam, want_block);
+                }
+            }
+            match parse_v2_header(&bytes) {
+                Ok((rest, back)) => {
+                    if !rest.is_empty() {
+                        fail!("C18/parser-consumed", "parser left {} bytes of the encoder's own output", rest.len());
+                    }
+                    if !mixed && (back.addr.source() != Some(s) || back.addr.destination() != Some(d)) {
+                        fail!("C18/roundtrip-addresses", "{s} -> {d} came back as {:?} -> {:?}", back.addr.source(), back.addr.destination());
+                    }
+                    if (back.command == Command::Local) != *local {
+                        fail!("C18/roundtrip-command", "command changed in the round trip");
+                    }
+                }
+                Err(e) => fail!("C18/roundtrip-rejected", "parser rejects the encoder's output for {s} -> {d}: {e:?}"),
+            }
+            rep.nontrivial = true;
+            rep.class_if(mixed, "mixed_families");
+            rep.class_if(s.is_ipv6(), "ipv6");
+            rep.class("roundtrip");
+        }
+        CodecCase::Bytes(b) => {
+            let spec = spec_parse(b);
+            match parse_v2_header(b) {
+                Ok((rest, h)) => {
+                    let consumed = b.len() - rest.len();
+                    let Some(spec) = spec else {
+                        fail!("C18/parser-accepted-non-header", "parser accepted {} bytes that do not hold a complete v2 header: {:02x?}", b.len(), &b[..b.len().min(40)]);
+                    };
+                    if consumed != spec.total {
+                        fail!("C18/parser-consumed", "parser consumed {consumed} bytes, the header declares 16 + {} = {}", spec.total - 16, spec.total);
+                    }
+                    if spec.cmd != 0x20 && spec.cmd != 0x21 {
+                        fail!("C18/parser-accepted-bad-version-command", "accepted version/command byte {:#x}", spec.cmd);
+                    }
+                    // addresses equal the block's content
+                    let ok = match (&h.addr, spec.fam >> 4) {
+                        (ProxyAddr::Ipv4Addr { src_addr, dst_addr }, 1) => {
+                            spec.block.len() >= 12
+                                && src_addr.ip().octets() == spec.block[0..4]
+                                && dst_addr.ip().octets() == spec.block[4..8]
+                                && src_addr.port().to_be_bytes() == spec.block[8..10]
+                                && dst_addr.port().to_be_bytes() == spec.block[10..12]
+                        }
+                        (ProxyAddr::Ipv6Addr { src_addr, dst_addr }, 2) => {
+                            spec.block.len() >= 36
+                                && src_addr.ip().octets() == spec.block[0..16]
+                                && dst_addr.ip().octets() == spec.block[16..32]
+                                && src_addr.port().to_be_bytes() == spec.block[32..34]
+                                && dst_addr.port().to_be_bytes() == spec.block[34..36]
+                        }
+                        (ProxyAddr::AfUnspec, 0) => true,
+                        (ProxyAddr::UnixAddr { .. }, 3) => spec.block.len() >= 216,
+                        _ => false,
+                    };
+                    if !ok {
+                        fail!("C18/parser-addresses", "parsed {:?} from family {:#x} block {:02x?}", h.addr, spec.fam, &spec.block[..spec.block.len().min(40)]);
+                    }
+                    rep.class("bytes_accepted");
+                    rep.class_if(spec.total > 16 + 36, "accepted_with_tlv_tail");
+                    rep.nontrivial = true;
+                }
+                Err(_) => {
+                    rep.class("bytes_rejected_or_incomplete");
+                    rep.class_if(spec.is_some(), "complete_header_rejected");
+                    rep.nontrivial = spec.is_some();
+                }
+            }
+        }
+    }
+    Ok(rep)
+}
+
+// ------------------------------------------------------------------ (b) ExpectProxyProtocol<FakeSocket>
+
+#[derive(Clone, Debug, Serialize, Deserialize)]
+pub enum Chunk {
+    Data(usize),
+    WouldBlock,
+}
+
+#[derive(Clone, Debug, Serialize, Deserialize)]
+pub struct ExpectCase {
+    /// 0 = valid header, 1 = bad signature byte, 2 = bad version/command, 3 = unknown family, 4 = declared length > 216 (oversized)
+    pub flavour: u8,
+    pub local: bool,
+    /// 0 UNSPEC, 1 IPv4/TCP, 2 IPv6/TCP, 3 UNIX
+    pub family: u8,
+    pub addr_bytes: Vec<u8>,
+    pub tlv: Vec<u8>,
+    pub payload: Vec<u8>,
+    pub chunks: Vec<Chunk>,
+    pub corrupt_at: u8,
+}
+
+fn expect_strategy() -> impl Strategy<Value = ExpectCase> {
+    (
+        prop_oneof![6 => Just(0u8), 1 => Just(1u8), 1 => Just(2u8), 1 => Just(3u8), 1 => Just(4u8)],
+        prop::bool::weighted(0.2),
+        prop_oneof![1 => Just(0u8), 4 => Just(1u8), 4 => Just(2u8), 1 => Just(3u8)],
+        prop::collection::vec(any::<u8>(), 216..=216),
+        prop_oneof![3 => Just(vec![]), 2 => prop::collection::vec(any::<u8>(), 1..60), 1 => prop::collection::vec(any::<u8>(), 60..181)],
+        prop_oneof![1 => Just(vec![]), 3 => prop::collection::vec(any::<u8>(), 1..80)],
+        prop::collection::vec(prop_oneof![4 => (1usize..40).prop_map(Chunk::Data), 1 => Just(Chunk::WouldBlock), 1 => Just(Chunk::Data(1))], 0..40),
+        0u8..12,
+    )
+        .prop_map(|(flavour, local, family, addr_bytes, tlv, payload, chunks, corrupt_at)| ExpectCase { flavour, local, family, addr_bytes, tlv, payload, chunks, corrupt_at })
+}
+
+struct FakeSocket {
+    stream: TcpStream,
+    _peer: StdStream,
+    data: VecDeque<u8>,
+    plan: VecDeque<Chunk>,
+    taken: usize,
+    eof_when_empty: bool,
+}
+
+impl SocketHandler for FakeSocket {
+    fn socket_read(&mut self, buf: &mut [u8]) -> (usize, SocketResult) {
+        if buf.is_empty() {
+            return (0, SocketResult::Continue);
+        }
+        if self.data.is_empty() {
+            return if self.eof_when_empty { (0, SocketResult::Closed) } else { (0, SocketResult::WouldBlock) };
+        }
+        match self.plan.pop_front() {
+            Some(Chunk::WouldBlock) => (0, SocketResult::WouldBlock),
+            other => {
+                let want = match other {
+                    Some(Chunk::Data(n)) => n,
+                    _ => usize::MAX,
+                };
+                let n = want.min(buf.len()).min(self.data.len());
+                for b in buf.iter_mut().take(n) {
+                    *b = self.data.pop_front().unwrap();
+                }
+                self.taken += n;
+                // a short read means the kernel buffer is drained for now
+                (n, if n < buf.len() { SocketResult::WouldBlock } else { SocketResult::Continue })
+            }
+        }
+    }
+    fn socket_write(&mut self, buf: &[u8]) -> (usize, SocketResult) {
+        (buf.len(), SocketResult::Continue)
+    }
+    fn socket_write_vectored(&mut self, bufs: &[std::io::IoSlice]) -> (usize, SocketResult) {
+        (bufs.iter().map(|b| b.len()).sum(), SocketResult::Continue)
+    }
+    fn socket_ref(&self) -> &TcpStream {
+        &self.stream
+    }
+    fn socket_mut(&mut self) -> &mut TcpStream {
+        &mut self.stream
+    }
+    fn protocol(&self) -> TransportProtocol {
+        TransportProtocol::Tcp
+    }
+    fn read_error(&self) {}
+    fn write_error(&self) {}
+}
+
+fn loopback_pair() -> (TcpStream, StdStream) {
+    let l = StdListener::bind("127.0.0.1:0").expect("bind");
+    let c = StdStream::connect(l.local_addr().unwrap()).expect("connect");
+    let (s, _) = l.accept().expect("accept");
+    s.set_nonblocking(true).unwrap();
+    (TcpStream::from_std(s), c)
+}
+
+fn check_expect(case: &ExpectCase) -> CheckResult {
+    let mut rep = CaseReport::default();
+    let (fam_byte, addr_len) = match case.family {
+        0 => (0x00u8, 0usize),
+        1 => (0x11, 12),
+        2 => (0x21, 36),
+        _ => (0x31, 216),
+    };
+    let mut block = case.addr_bytes[..addr_len].to_vec();
+    block.extend_from_slice(&case.tlv);
+    let mut cmd = if case.local { 0x20u8 } else { 0x21 };
+    let mut fam = fam_byte;
+    match case.flavour {
+        2 => cmd = 0x11, // version 1 / bad command nibble
+        3 => fam = 0x41, // unknown family nibble
+        4 => {
+            // oversized: more than the largest (unix) address block the window allows
+            block.resize(217 + case.tlv.len().min(20), 0xAB);
+        }
+        _ => {}
+    }
+    let mut header = raw_header(cmd, fam, &block);
+    if case.flavour == 1 {
+        let i = (case.corrupt_at as usize) % 12;
+        header[i] ^= 0x40;
+    }
+    let header_len = header.len();
+    let mut wire = header.clone();
+    wire.extend_from_slice(&case.payload);
+
+    let (stream, peer) = loopback_pair();
+    let sock = FakeSocket { stream, _peer: peer, data: wire.iter().copied().collect(), plan: case.chunks.iter().cloned().collect(), taken: 0, eof_when_empty: false };
+    let mut st = ExpectProxyProtocol::new(TimeoutContainer::new_empty(Duration::from_secs(5)), sock, Token(1), Ulid::generate());
+    let mut metrics = SessionMetrics::new(None);
+
+    let valid = case.flavour == 0;
+    let mut verdict = None;
+    let mut calls = 0;
+    let mut taken_at_verdict = 0;
+    // the session loop calls readable() on every readable event until Upgrade / Close
+    for _ in 0..600 {
+        calls += 1;
+        let r = st.readable(&mut metrics);
+        let taken = st.frontend.taken;
+        match r {
+            SessionResult::Continue => {
+                if taken >= wire.len() && st.frontend.data.is_empty() {
+                    // nothing more will ever arrive: one more event-less call would spin
+                    if calls > 300 {
+                        break;
+                    }
+                    if st.frontend.plan.is_empty() {
+                        // give it one extra call, then stop
+                        let r2 = st.readable(&mut metrics);
+                        if !matches!(r2, SessionResult::Continue) {
+                            verdict = Some(r2);
+                            taken_at_verdict = st.frontend.taken;
+                        }
+                        break;
+                    }
+                }
+            }
+            other => {
+                verdict = Some(other);
+                taken_at_verdict = taken;
+                break;
+            }
+        }
+    }
+
+    let split_inside_header = {
+        // did any read boundary fall strictly inside the header?
+        let mut pos = 0usize;
+        let mut inside = false;
+        for c in &case.chunks {
+            if let Chunk::Data(n) = c {
+                pos += n;
+                if pos > 0 && pos < header_len {
+                    inside = true;
+                }
+            }
+        }
+        inside
+    };
+
+    match (valid, case.family) {
+        (true, 3) => {
+            // AF_UNIX: a well-formed header without IP addresses; accepting or refusing are both admitted
+            rep.class("unix_family");
+        }
+        (true, _) => match verdict {
+            Some(SessionResult::Upgrade) => {
+                if taken_at_verdict < header_len {
+                    fail!("C18/expect-upgrade-before-header-complete", "Upgrade after {taken_at_verdict} bytes, the header has {header_len}");
+                }
+                let got = st.addresses.as_ref();
+                let want_src: Option<SocketAddr> = match case.family {
+                    1 => Some(SocketAddr::from(([block[0], block[1], block[2], block[3]], u16::from_be_bytes([block[8], block[9]])))),
+                    2 => {
+                        let mut ip = [0u8; 16];
+                        ip.copy_from_slice(&block[0..16]);
+                        Some(SocketAddr::from((ip, u16::from_be_bytes([block[32], block[33]]))))
+                    }
+                    _ => None,
+                };
+                let want_dst: Option<SocketAddr> = match case.family {
+                    1 => Some(SocketAddr::from(([block[4], block[5], block[6], block[7]], u16::from_be_bytes([block[10], block[11]])))),
+                    2 => {
+                        let mut ip = [0u8; 16];
+                        ip.copy_from_slice(&block[16..32]);
+                        Some(SocketAddr::from((ip, u16::from_be_bytes([block[34], block[35]]))))
+                    }
+                    _ => None,
+                };
+                let (gs, gd) = (got.and_then(|a| a.source()), got.and_then(|a| a.destination()));
+                if gs != want_src || gd != want_dst {
+                    fail!("C18/expect-addresses", "header carries {want_src:?} -> {want_dst:?}, the session took {gs:?} -> {gd:?}");
+                }
+            }
+            Some(SessionResult::Close) => {
+                fail!(
+                    "C18/expect-valid-header-closed",
+                    "a well-formed v2 header ({header_len} bytes: family {:#x}, {} TLV bytes) followed by {} payload bytes was refused after {taken_at_verdict} bytes read in {calls} calls; chunks {:?}",
+                    fam,
+                    case.tlv.len(),
+                    case.payload.len(),
+                    &case.chunks[..case.chunks.len().min(12)]
+                );
+            }
+            _ => {
+                fail!(
+                    "C18/expect-never-upgrades",
+                    "a well-formed v2 header ({header_len} bytes) fully delivered ({} bytes taken) never produced Upgrade in {calls} calls",
+                    st.frontend.taken
+                );
+            }
+        },
+        (false, _) => match verdict {
+            Some(SessionResult::Upgrade) => {
+                fail!("C18/expect-malformed-header-accepted", "flavour {} (1 bad signature, 2 bad version/command, 3 unknown family, 4 oversized): Upgrade after {taken_at_verdict} bytes", case.flavour);
+            }
+            Some(SessionResult::Close) => {}
+            _ => {
+                // a malformed header may stay undecided only while bytes that decide it are missing
+                let decisive = match case.flavour {
+                    1 => 12,
+                    2 => 13,
+                    3 => header_len,
+                    _ => 232,
+                };
+                if st.frontend.taken >= decisive.min(wire.len()) && wire.len() >= decisive {
+                    fail!("C18/expect-malformed-header-not-closed", "flavour {}: {} bytes read (decisive at {decisive}) and the session is still waiting", case.flavour, st.frontend.taken);
+                }
+            }
+        },
+    }
+
+    rep.nontrivial = split_inside_header && !case.payload.is_empty();
+    rep.class_if(valid, "valid_header");
+    rep.class_if(!valid, "malformed_header");
+    rep.class_if(!case.tlv.is_empty() && valid, "tlv_tail");
+    rep.class_if(split_inside_header, "split_inside_header");
+    rep.class_if(!case.payload.is_empty(), "payload_follows");
+    rep.class_if(case.chunks.iter().any(|c| matches!(c, Chunk::WouldBlock)), "would_block");
+    rep.class_if(taken_at_verdict > header_len && matches!(verdict, Some(SessionResult::Upgrade)), "read_past_header_before_upgrade");
+    Ok(rep)
+}
+
+pub fn run(args: &Args) -> i32 {
+    let mut ev = Evidence::new(args, "exploration");
+    ev.rule(
+        "codec",
+        "HeaderV2::new(cmd, src, dst).into_bytes() for generated IPv4/IPv6 addresses is read back by an independent byte-level reading of the PROXY v2 specification and by parse_v2_header (same addresses and command, whole output consumed); arbitrary and near-miss byte strings: the parser accepts only a complete v2 header, consumes exactly 16 + declared length, and its addresses equal the block's bytes. Non-trivial: a round trip or a complete header; distinct by case hash.",
+    );
+    ev.rule(
+        "expect",
+        "ExpectProxyProtocol over an in-memory socket delivering a hand-built header (UNSPEC/IPv4/IPv6/UNIX, LOCAL/PROXY, TLV tail 0..180 bytes, or a malformed flavour: bad signature, bad version/command, unknown family, oversized) plus payload, in generated read sizes with would-blocks; Upgrade only once the whole header arrived and with the header's addresses, well-formed headers are never refused, malformed ones are closed and never upgraded. Non-trivial: a read boundary inside the header and payload present; distinct by case hash.",
+    );
+    ev.assume("AF_UNIX headers carry no IP address: both accepting and refusing them is admitted");
+    ev.assume("whether payload bytes read together with the header reach the backend is decided by the wire-lab tier (the in-memory socket cannot observe the pipe)");
+    ev.floor("expect", "split_inside_header", 0.3);
+    ev.floor("expect", "tlv_tail", 0.1);
+    engine::run_pbt(&mut ev, args, "codec", args.cases(60_000, 2_000_000), codec_strategy, check_codec);
+    engine::run_pbt(&mut ev, args, "expect", args.cases(20_000, 600_000), expect_strategy, check_expect);
+    ev.finish()
 }
